@@ -580,6 +580,7 @@ static DIRFILE *_GD_Open(DIRFILE *D, int dirfd, const char *filedir,
   free(p.ns);
 
   if (D->error != GD_E_OK) {
+    free(ref_name);
     dreturn("%p", D);
     return D;
   }
